@@ -27,7 +27,7 @@ pub fn run(ctx: &Ctx, rec: &mut Recorder) -> Result<(), String> {
     let mut r0 = Rng::derive(ctx.seed, 8, 0xFFFF);
     c07::selftest(&mut r0)?;
     let opts = ParseOptions::default();
-    let ncases = ctx.qt(16_000u64, 800_000u64);
+    let ncases = ctx.qt(16_000u64, 160_000u64);
     for cno in 0..ncases {
         if !ctx.mine(cno) {
             continue;
@@ -86,7 +86,7 @@ pub fn run(ctx: &Ctx, rec: &mut Recorder) -> Result<(), String> {
         }
     }
     // ---- garbage: random data x random filter dictionaries x limits (panic / length only)
-    let ngarb = ctx.qt(30_000u64, 1_500_000u64);
+    let ngarb = ctx.qt(30_000u64, 400_000u64);
     let names = ["FlateDecode", "LZWDecode", "ASCIIHexDecode", "ASCII85Decode", "RunLengthDecode", "CCITTFaxDecode", "DCTDecode", "JBIG2Decode", "Crypt", "Bogus"];
     let ints: [i64; 14] = [-1, 0, 1, 2, 7, 8, 10, 12, 15, 16, 255, 65536, i32::MAX as i64, i64::MAX];
     for g in 0..ngarb {
